@@ -86,7 +86,7 @@ func loadPools() {
 		return
 	}
 	for _, d := range dmodel.Dialects {
-		pools[d] = append(dmodel.Pool(d), dmodel.CasePool(d)...)
+		pools[d] = append(append(dmodel.Pool(d), dmodel.CasePool(d)...), dmodel.ExtraPool(d)...)
 		for _, m := range pools[d] {
 			poolIdx[string(d)+"/"+m.Name] = m
 			byID := map[string]dmodel.Edit{}
@@ -272,7 +272,11 @@ func evaluate(cs Case, final *dmodel.Model) (res result) {
 				rev(t.PrimaryKey.Parts)
 			}
 			for _, ix := range t.Indexes {
-				rev(ix.Parts)
+				// SQLite derives the normalised name of a generated index from its parts as listed
+				// (normalizeIdxName does not look at SeqNo): the listing order is part of the name.
+				if !dmodel.IsAutoIndexName(ix.Name) {
+					rev(ix.Parts)
+				}
 			}
 		}
 	}
